@@ -156,7 +156,7 @@ def validate(ctx, wname, tracefile, leg, wspec, stats, replay_path=None):
         stats["res"][key] = stats["res"].get(key, 0) + 1
     stats["events"] += len(evs)
     stats["viols"] += len(found)
-    return evs, None
+    return evs, found
 
 
 def negative_sample(ctx, wname, evs):
@@ -244,12 +244,31 @@ def run(ctx, replay):
     sens = [("OrAppendsTypes", "ws", "SourceCoversMatches", 8), ("SortedSourceDropsSome", "ws", "SourceCoversMatches", 8),
             ("DeleteDateIsModtime", "ws", "MatcherAgrees", 14), ("ContentClaimTimeIgnored", "wf", "MatcherAgrees", 20),
             ("RecursiveWholeDir", "wf", "MatcherAgrees", 20),
-            ('DirChildrenCappedByLimit", "cap2', "wf", "MatcherAgrees", 20),
+            ('DirChildrenCappedByLimit", "cap2', "wf", "MatcherAgrees", 16),
             ("TypedSourceRepeats", "wp", "TypedSourceOnce", 7)]
+    def sens_job(dev, w, inv, msize):
+        r = ctx.tlc_check("Search", "Search.cfg", overrides=wconst(w, MenuSize=msize, Deviations='{"%s"}' % dev), workers=1,
+                          expect_violation=inv + "X", timeout=600)
+        # replay the model's counterexample on the real code (a model counterexample is a hypothesis until then)
+        m = re.search(r'<<"CEX", (".*")>>', r["out"])
+        if not m:
+            raise vlib.MachineryError("sensitivity run for %s printed no counterexample" % dev)
+        q = json.loads(json.loads(m.group(1)))
+        name = dev.split('"')[0]
+        mode = "build"
+        if name == "DirChildrenCappedByLimit":
+            q["limit"], mode = 2, "classic"
+        qf = ctx.path("q_cex_%s.jsonl" % name)
+        vlib.write_jsonl(qf, [q])
+        out = run_queries(ctx, drv, w, qf, mode, "cex_" + name)
+        evs, found = validate(ctx, w, out, "G-cex", worlds[w][0], stats)
+        ctx.count("G", counterexamples_replayed=1)
+        if not any(name in d for _, rep in found for d in rep["explained"]):
+            ctx.notes.append("deviation %s: the model's counterexample %s sort=%s was NOT reproduced by the real code (stale?)"
+                             % (name, fmt_tree(q["tree"]), q["sort"]))
+            ctx.log("stale deviation? %s not reproduced on %s" % (name, fmt_tree(q["tree"])))
     for dev, w, inv, msize in sens:
-        jobs.append(("S", lambda dev=dev, w=w, inv=inv, msize=msize: ctx.tlc_check(
-            "Search", "Search.cfg", overrides=wconst(w, MenuSize=msize, Deviations='{"%s"}' % dev), workers=1,
-            expect_violation=inv, timeout=600)))
+        jobs.append(("S", lambda dev=dev, w=w, inv=inv, msize=msize: sens_job(dev, w, inv, msize)))
 
     # ---- G: TLC-generated queries on the fixed worlds, every index mode
     def gleg(w, mode, msize, nsim, limits, tag):
